@@ -38,7 +38,7 @@ def main(argv):
             print("ANALYSIS-ERROR property=%s no rules built for this property" % prop)
             return 2
         from .engine import Analysis
-        depth = 8 if tier == "quick" else 12
+        depth = 14 if tier == "quick" else 18
         a = Analysis(depth=depth)
         ctx = Ctx(prop, a, tier)
         mod.check(ctx)
